@@ -118,6 +118,17 @@ impl Idm {
         })
     }
 
+    /// one step given as an already built event (for the credential kinds that only exist inside
+    /// the server, such as the answers of an OAuth2 trust provider)
+    pub fn auth_event(&self, ae: &AuthEvent, ct: Duration) -> Result<AuthResult, OperationError> {
+        self.rt.block_on(async {
+            let mut a = self.idms.auth().await?;
+            let r = a.auth(ae, ct, ClientAuthInfo::new(Source::Internal, None, None, None)).await;
+            a.commit()?;
+            r
+        })
+    }
+
     /// all queued delayed actions (session records, credential upgrades, ...) applied at `ct`
     pub fn pump(&mut self, ct: Duration) -> Vec<String> {
         let mut labels = Vec::new();
